@@ -563,6 +563,37 @@ def _corpus():
     return _CORPUS
 
 
+_FP_TABLE = None
+
+
+def fingerprint(pat, flags=0):
+    """behaviour of a pattern on the corpus (where it matches and how far), as a short hash; None if it does not compile"""
+    import hashlib
+    import re as _re
+    try:
+        rx = _re.compile(pat, flags)
+    except _re.error:
+        return None
+    h = hashlib.sha1()
+    for s_ in _corpus():
+        m = rx.match(s_)
+        h.update(b"-" if m is None else str(m.end()).encode())
+        h.update(b",")
+    return h.hexdigest()[:16]
+
+
+def fp_table():
+    """fingerprint -> the text under which the pinned tree writes that pattern (tools/pattern_canon.json, written by
+    tools/dev_pattern_canon.py from the grammar graphs of the pinned tree; patterns that collide are left out)"""
+    global _FP_TABLE
+    if _FP_TABLE is None:
+        try:
+            _FP_TABLE = json.load(open(os.path.join(VERIF, "tools", "pattern_canon.json"), encoding="utf8"))
+        except Exception:
+            _FP_TABLE = {}
+    return _FP_TABLE
+
+
 def canon_pattern(pat, flags=0):
     """the pinned text if `pat` is a pinned pattern or behaves exactly like one on the corpus, else `pat` itself"""
     import re as _re
@@ -571,7 +602,15 @@ def canon_pattern(pat, flags=0):
         return _CANON_CACHE[key]
     pins = pinned_patterns()
     res = pat
-    if pat not in pins and pat:
+    known_texts = set(fp_table().values())
+    if pat and pat not in pins and pat not in known_texts:
+        fp = fingerprint(pat, flags)
+        if fp is not None and fp in fp_table():
+            res = fp_table()[fp]
+            REWRITES.append({"source": pat, "equivalent_pinned": res, "strings_compared": len(_corpus())})
+            _CANON_CACHE[key] = res
+            return res
+    if pat not in pins and pat and pat not in known_texts:
         try:
             rx = _re.compile(pat, flags)
             mine = [(m.end() if m else None) for m in (rx.match(s) for s in _corpus())]
@@ -649,7 +688,9 @@ def walk_graph(root):
         if e is None or id(e) in seen:
             continue
         seen[id(e)] = e
-        x = getattr(e, "expr", None)
+        # a Regex node matches with its compiled expression; the element tree mo_parsing also derives from the
+        # pattern text is not consulted when parsing, so the node is a leaf here (identified by its pattern)
+        x = None if type(e).__name__ == "Regex" else getattr(e, "expr", None)
         if x is not None and hasattr(x, "parser_config"):
             stack.append(x)
         for y in getattr(e, "exprs", None) or []:
@@ -681,7 +722,7 @@ def ws_census(root):
             continue
         seen[id(e)] = e
         parents[id(e)] = par
-        x = getattr(e, "expr", None)
+        x = None if type(e).__name__ == "Regex" else getattr(e, "expr", None)
         if x is not None and hasattr(x, "parser_config"):
             stack.append((x, e))
         for y in getattr(e, "exprs", None) or []:
@@ -744,7 +785,7 @@ def extract_graph(X, builds):
             fn = getattr(pa, "__wrapped__", pa)
             acts.append(getattr(fn, "__name__", None) or getattr(getattr(pa, "action", None), "__name__", None) or type(pa).__name__)
         return "%s|%s|%s|%s|%s" % (type(e).__name__, str(getattr(e, "parser_name", "") or "")[:40], mt if isinstance(mt, str) else "",
-                                   (canon_pattern(pat) if type(e).__name__ == "Regex" else pat)[:80], ",".join(acts))
+                                   canon_pattern(pat)[:80], ",".join(acts))
 
     sigs = {}
     for (name, ac), parser in builds.items():
